@@ -37,5 +37,17 @@ func Collisions() Family {
 	add("user-struct-named-like-the-error-model", "type Rfc7807Error struct {\n\tMine string `json:\"mine\"`\n}\n", "", "Rfc7807Error", "")
 	add("nested-field-types-collide", "type Inner struct {\n\tA string `json:\"a\"`\n}\n\ntype OuterA struct {\n\tIn Inner `json:\"in\"`\n}\n",
 		"type Inner struct {\n\tB int `json:\"b\"`\n}\n\ntype OuterB struct {\n\tIn []Inner `json:\"in\"`\n}\n", "OuterA", "OuterB")
+	// status codes that collide: an @ErrorResponse with the code of the success response (explicit or default)
+	for _, resp := range []string{"200 fine", "", "201 made"} {
+		id := fmt.Sprintf("x%04d", len(cases))
+		code := "200"
+		if resp != "" {
+			code = resp[:3]
+		}
+		m := scen.Method{Name: "Get" + id, Verb: "POST", Route: scen.S("/one"), Ret: "Item", Response: resp, ErrResps: []string{code + " also an error", "500 boom"}}
+		ctl := scen.Controller{Name: "C" + id, Pkg: id + "/a", Prefix: scen.S("/" + id + "/a"), Tag: scen.S("T" + id), Methods: []scen.Method{m}}
+		u := scen.Unit{Controllers: []scen.Controller{ctl}, Decls: map[string]string{id + "/a": itemA}}
+		cases = append(cases, scen.Case{ID: id, Unit: u, Features: map[string]string{"family": "name-collision", "collision": "error-response-code-equals-success-code " + code}, Desc: map[string]any{"controller": ctl}})
+	}
 	return Family{Name: "name-collision", Cases: cases, BaseCfg: DefaultCfg, PackSize: 1}
 }
